@@ -178,6 +178,16 @@ class SymList(ModelObj):
     def m_len(self, I):
         return Sym(self.n)
 
+    def m_contains(self, I, x):
+        """x in L for a symbolic list: a fresh Boolean with a witness index (true) / a universal fact (false)"""
+        ctx = I.ctx
+        r = ctx.fresh("in_list", z3.BoolSort())
+        w = ctx.fresh("at", z3.IntSort())
+        j = z3.Int("j!in")
+        ctx.assume(z3.Implies(r, z3.And(w >= 0, w < self.n, I.eq_formula(self.f(w), x))))
+        ctx.assume(z3.Implies(z3.Not(r), z3.ForAll([j], z3.Implies(z3.And(j >= 0, j < self.n), z3.Not(I.eq_formula(self.f(j), x))))))
+        return Sym(r)
+
     def _index(self, I, idx):
         i = to_z3(idx, z3.IntSort())
         i = z3.simplify(z3.If(i < 0, self.n + i, i))
